@@ -42,3 +42,19 @@ package head
 //@   loop 7 invariant forall k cbc.Key :: $visited[k] ==> has(h.Meta, k) && h.Meta[k] == h2.Meta[k]
 //
 //@ pred sameFields(a *Header, b *Header) bool = a.UUID == b.UUID && a.Digest == b.Digest && a.Stamps == b.Stamps && a.Links == b.Links && a.Tags == b.Tags && a.Meta == b.Meta && a.Notes == b.Notes
+//
+// ---- C04: validating a header does not reorder or rewrite its stamps
+//
+// the duplicate check only reads: no duplicate provider among the stamps exactly when it
+// returns no error, and nothing that existed before the call is written (frame)
+//@ pred stampsOK(l []*Stamp) bool = forall i int :: 0 <= i && i < len(l) ==> l[i] != nil
+//@ pred providerBefore(l []*Stamp, i int) bool = exists j int :: 0 <= j && j < i && l[j].Provider == l[i].Provider
+//@ func (s *Stamp) In(ss) (r)
+//@   requires s != nil && stampsOK(ss)
+//@   ensures r <==> (exists j int :: 0 <= j && j < len(ss) && ss[j].Provider == s.Provider)
+//@   loop 1 invariant forall j int :: 0 <= j && j < idx ==> ss[j].Provider != s.Provider
+//@ func detectDuplicateStamps(list) (err)
+//@   requires typeis(list, []*Stamp) ==> stampsOK(unboxed(list, []*Stamp))
+//@   ensures [unique] typeis(list, []*Stamp) ==> (err == nil <==> (forall i int :: 0 <= i && i < len(unboxed(list, []*Stamp)) ==> !providerBefore(unboxed(list, []*Stamp), i)))
+//@   ensures [kind] !typeis(list, []*Stamp) ==> err != nil
+//@   loop 1 invariant len(set) == idx && stampsOK(set) && fresh(set) && (forall j int :: 0 <= j && j < idx ==> set[j] == values[j]) && (forall i int :: 0 <= i && i < idx ==> !providerBefore(values, i))
